@@ -836,7 +836,11 @@ def check_retrieval(out, c, tmp):
         if nm in seen or all(fp[k] is None for k in ('fit', 'bounds', 'mode', 'factor', 'prior')):
             continue                # a parameter the file does not mention keeps its defaults
         seen.add(nm)
-        fitting.append(dict(fp, name=nm))
+        fp = dict(fp, name=nm)
+        if fp['mode'] and fp['mode'].lower() == 'log' and fp['bounds'] is None and nm in m0.fittingParameters \
+                and min(m0.fittingParameters[nm][6]) <= 0:
+            fp['mode'] = None           # log mode over default bounds that reach zero or below has no prior: not a legal request
+        fitting.append(fp)
     synth.reset_world()
     flines = []
     for fp in fitting:
